@@ -46,7 +46,10 @@ func (p *PointProj) scalarMulGLV(p1 *PointProj, scalar *big.Int) *PointProj {
 	table[3].phi(p1)
 
 	// split the scalar, modifies +-p1, phi(p1) accordingly
-	k := ecc.SplitScalar(scalar, &curveParams.glvBasis)
+	// (the sub-scalars are stored in fixed-size words below: reduce the scalar modulo the group order first)
+	var s big.Int
+	s.Mod(scalar, &curveParams.Order)
+	k := ecc.SplitScalar(&s, &curveParams.glvBasis)
 
 	if k[0].Sign() == -1 {
 		k[0].Neg(&k[0])
@@ -143,7 +146,10 @@ func (p *PointExtended) scalarMulGLV(p1 *PointExtended, scalar *big.Int) *PointE
 	table[3].phi(p1)
 
 	// split the scalar, modifies +-p1, phi(p1) accordingly
-	k := ecc.SplitScalar(scalar, &curveParams.glvBasis)
+	// (the sub-scalars are stored in fixed-size words below: reduce the scalar modulo the group order first)
+	var s big.Int
+	s.Mod(scalar, &curveParams.Order)
+	k := ecc.SplitScalar(&s, &curveParams.glvBasis)
 
 	if k[0].Sign() == -1 {
 		k[0].Neg(&k[0])
